@@ -887,10 +887,13 @@ CONFIG = {
 def make_scheduler(text, workdir, fname='kmod.f90'):
     from loki import Scheduler, config as loki_config
     try:
-        loki_config['regex-frontend-timeout'] = 600
         import logging
         from loki import logging as loki_logging
         loki_logging.logger.setLevel(logging.ERROR)
+    except Exception:  # pylint: disable=broad-except
+        pass
+    try:
+        loki_config['regex-frontend-timeout'] = 600
     except Exception:  # pylint: disable=broad-except
         pass
     os.makedirs(workdir, exist_ok=True)
@@ -1379,10 +1382,14 @@ def corpus(which, rng):
             # (b) demotable temporaries, vector notation, a (klon, klev) temporary that must be hoisted / stacked, nested kernel
             body = [do(nm['jk'], N(1), L, [do(nm['jl'], st, en, [assign(el('ztmp', jl), op('prod', el('pq', jl, jk), R(2))),
                                                                   assign(el('zbig', jl, jk), add(el('ztmp', jl), el('pt', jl, jk)))])]),
+                    do(nm['jl'], st, en, [assign(el('zkeep', jl), op('prod', el('pq', jl, N(1)), R(1, 2)))]),
                     callst('n1', st, en, K, L, V('zbig'), V('pq')),
                     do(nm['jk'], N(2), L, [assign(el('pt', rng_(st, en), jk), add(el('zbig', rng_(st, en), jk), el('pq', rng_(st, en), add(jk, N(-1)))))]),
-                    do(nm['jl'], st, en, [if_(cmp_('>', el('pt', jl, N(1)), R(1)), [assign(el('ps', jl), el('zbig', jl, L))], [assign(el('ps', jl), R(1, 2))])])]
-            k1 = _kernel(nm, 'k1', [xdecl('ztmp', 'real', 'local', [(None, K)]), xdecl('zbig', 'real', 'local', [(None, K), (None, L)])], body)
+                    do(nm['jl'], st, en, [if_(cmp_('>', el('pt', jl, N(1)), R(1)), [assign(el('ps', jl), add(el('zbig', jl, L), el('zkeep', jl)))],
+                                              [assign(el('ps', jl), add(R(1, 2), el('zkeep', jl)))])])]
+            # ztmp: one section (demotable); zkeep: buffers a value across the nested call (two sections: must stay an array)
+            k1 = _kernel(nm, 'k1', [xdecl('ztmp', 'real', 'local', [(None, K)]), xdecl('zkeep', 'real', 'local', [(None, K)]),
+                                    xdecl('zbig', 'real', 'local', [(None, K), (None, L)])], body)
             progs.append(('basic', [k1, _inner_kernel(nm)]))
         else:
             # (a) nested kernel called with klev and klev-1 levels
